@@ -10,6 +10,7 @@ import (
 	"sort"
 	"strings"
 
+	"github.com/flowmatters/openwater-core/data"
 	"github.com/flowmatters/openwater-core/sim"
 	"owverif.local/verif/gridx"
 	"owverif.local/verif/mrun"
@@ -123,10 +124,100 @@ func oracle(model string) func(c *gridx.Case, r *vf.Rec) {
 				r.Failf("C06/"+model+"/"+cls, detail, "%s: run cut after steps %v differs from the uninterrupted run (outputs %v, states %v)", model, cuts, dOut, dSt)
 			}
 		}
+		if len(seen) == 0 {
+			if comp := companion(model, c.Params); comp != nil && !pairedCells(model, c, comp, r) {
+				return
+			}
+		}
 		if nontrivial && len(seen) == 0 {
 			r.MarkNontrivial()
 		}
 	}
+}
+
+// companion: for the models whose state-vector length depends on a parameter (Lag, GR4J) a second cell with a LONGER
+// state row, so that in a vectorised run this cell's state row is padded (the rectangular state array is as wide as
+// the longest row).
+func companion(model string, params []float64) []float64 {
+	var t tables.Table
+	switch model {
+	case "Lag":
+		t = tables.Get("Lag")
+		return t.Params[len(t.Params)-1] // timeLag 5
+	case "GR4J":
+		t = tables.Get("GR4J")
+		return t.Params[4] // X4 = 4
+	}
+	return nil
+}
+
+// pairedCells: the case's cell and its companion run together in one vectorised Run; the period is cut in every way
+// with the rectangular state array carried forward; outputs and the state array must equal the uninterrupted
+// vectorised run bit for bit.
+func pairedCells(model string, c *gridx.Case, comp []float64, r *vf.Rec) bool {
+	T := c.T
+	cp := [][]float64{c.Params, comp}
+	other := make([][]float64, len(c.Inputs)) // the companion gets the series reversed in time
+	for k := range other {
+		other[k] = make([]float64, T)
+		for t := 0; t < T; t++ {
+			other[k][t] = c.Inputs[k][T-1-t]
+		}
+	}
+	all := [][][]float64{c.Inputs, other}
+	wholeOut, wholeSt := mrun.RunCells(model, cp, all, T, nil)
+	for mask := 1; mask < 1<<(T-1); mask++ {
+		outs := [][][]float64{make([][]float64, len(wholeOut[0])), make([][]float64, len(wholeOut[1]))}
+		var states data.ND2Float64
+		from := 0
+		for t := 0; t < T; t++ {
+			if t == T-1 || mask&(1<<t) != 0 {
+				seg := make([][][]float64, 2)
+				for cell := range seg {
+					seg[cell] = make([][]float64, len(all[cell]))
+					for k := range seg[cell] {
+						seg[cell][k] = all[cell][k][from : t+1]
+					}
+				}
+				var so [][][]float64
+				so, states = mrun.RunCells(model, cp, seg, t+1-from, states)
+				for cell := range outs {
+					for o := range outs[cell] {
+						outs[cell][o] = append(outs[cell][o], so[cell][o]...)
+					}
+				}
+				from = t + 1
+			}
+		}
+		r.Count("paired_cell_split_runs", 1)
+		cuts := []int{}
+		for t := 0; t < T-1; t++ {
+			if mask&(1<<t) != 0 {
+				cuts = append(cuts, t+1)
+			}
+		}
+		for cell := range outs {
+			for o := range outs[cell] {
+				for t := 0; t < T; t++ {
+					if !same(model, outs[cell][o][t], wholeOut[cell][o][t], 1, false, t, 86400) {
+						r.Failf("C06/"+model+"/paired-cells/split-output-differs", map[string]interface{}{"cuts_after_steps": cuts, "cell": cell, "companion_params": comp, "whole_outputs": wholeOut, "split_outputs": outs},
+							"%s with a companion cell of longer state row: cell %d output %d at t=%d is %v when cut after %v, %v uninterrupted", model, cell, o, t, outs[cell][o][t], cuts, wholeOut[cell][o][t])
+						return false
+					}
+				}
+			}
+		}
+		for cell := 0; cell < 2; cell++ {
+			for j := 0; j < wholeSt.Len(1); j++ {
+				if a, b := states.Get2(cell, j), wholeSt.Get2(cell, j); !same(model, a, b, math.Max(math.Abs(b), 1), true, T, 86400) {
+					r.Failf("C06/"+model+"/paired-cells/split-final-state-differs", map[string]interface{}{"cuts_after_steps": cuts, "cell": cell, "state_index": j, "companion_params": comp},
+						"%s with a companion cell of longer state row: cell %d state %d is %v when cut after %v, %v uninterrupted", model, cell, j, a, cuts, b)
+					return false
+				}
+			}
+		}
+	}
+	return true
 }
 
 // classify names the discrepancy; narrow classes exist for the recorded findings so that any other
@@ -201,7 +292,7 @@ func Spec() *vf.Check {
 	return &vf.Check{
 		ID: "C06", Level: "exploration", BlockSize: 256,
 		Rule: "17 stateful models x the parameter vectors of tables.Stateful() (every state-shape variant and branch) x every input word of length T over the model's alphabet x every composition of T (2^(T-1)-1 split patterns incl. 1-step segments and multiple splits); " +
-			"concatenated outputs and final states vs the uninterrupted run (round-off tolerance; StorageRouting: the solver's mass-balance tolerance per elapsed step). distinct_nontrivial = words with a non-zero output; counters.split_runs = split patterns executed.",
+			"concatenated outputs and final states vs the uninterrupted run; for Lag and GR4J (state row length depends on a parameter) the same again with the cell run in ONE vectorised call next to a companion cell with a longer state row (padded row; rectangular state array carried forward) (round-off tolerance; StorageRouting: the solver's mass-balance tolerance per elapsed step). distinct_nontrivial = words with a non-zero output; counters.split_runs = split patterns executed.",
 		Assumptions: []string{"StorageRouting's solver keeps an initial guess that is not a state: 2*massBalanceLimit per elapsed step is allowed on storage, the corresponding bound on outflow", "lattice values and horizon T only"},
 		Build:       func(tier string) vf.Enumeration { return gridx.NewEnum("C06", spaces(tier)) },
 	}
